@@ -218,6 +218,12 @@ func (s *store) CreateFamily(familyName string, option FamilyOption) (family Fam
 	s.rwMutex.Lock()
 	defer s.rwMutex.Unlock()
 
+	// check again under the write lock: another creator of the same family may have
+	// published it since the read-locked lookup above
+	if family, ok = s.families[familyName]; ok {
+		return family, nil
+	}
+
 	if !fileutil.Exist(familyPath) {
 		// create new family
 		option.Name = familyName
